@@ -170,7 +170,14 @@ func (msg *Message) RESPBytes() ([]byte, error) {
 			return nil, fmt.Errorf(errorUnknownMessageType, msg.Type)
 		}
 		respBytes.WriteByte(b)
-		respBytes.Write(msg.bytes)
+		// A line-type payload can not contain CR or LF (it would end the line early and
+		// the rest would be read as further replies), so they are written as spaces.
+		for _, c := range msg.bytes {
+			if c == cr || c == lf {
+				c = ' '
+			}
+			respBytes.WriteByte(c)
+		}
 		respBytes.WriteRune(cr)
 		respBytes.WriteRune(lf)
 	case BulkMessage:
